@@ -717,18 +717,34 @@ def comprehension(ev: Ev, node, kind):
         items = ev.iter_concrete(src, node)
         out = []
         for i, it in enumerate(items):
-            sub = ev.sub()
+            sub = ev.sub(pure=True)
+            sub.sideconds = []
+            sub.guards = []
             _bind_target(sub, tgt, VTuple([VInt(i), it]) if enum else it)
             ok = True
             for c in ifs:
-                t = sub.truth(sub.expr(c))
+                t = sub.cond(c)
+                for f, exc, line in sub.sideconds:
+                    ev.require(f, exc, node)
+                sub.sideconds = []
                 if ev.pure:
                     raise Unsupported("filtered concrete comprehension in pure mode")
                 if not st.decide(t):
                     ok = False
                     break
             if ok:
-                out.append(sub.expr(node.elt))
+                try:
+                    v = sub.expr(node.elt)
+                except Unsupported:
+                    v = None
+                if v is None:
+                    s2 = ev.sub()
+                    _bind_target(s2, tgt, VTuple([VInt(i), it]) if enum else it)
+                    v = s2.expr(node.elt)
+                else:
+                    for f, exc, line in sub.sideconds:
+                        ev.require(f, exc, node)
+                out.append(v)
         return ev.list_from_values(out)
     src = to_list(ev, src, node)
     lo = st.obj(src)
@@ -803,6 +819,17 @@ def quantify_gen(ev, gv, kind, node):
     lo = ev.st.obj(src)
     if lo.etype is None:
         return VBool(kind != "any")
+    nconc = z3.simplify(lo.length)
+    if z3.is_int_value(nconc) and nconc.as_long() <= 24:
+        vals = []
+        for i in range(nconc.as_long()):
+            ki = z3.IntVal(i)
+            cond, elt, side = elementwise(sub, gnode, ki, lo, enum)
+            for f, exc, line in side:
+                ev.require(f, exc, node)
+            t = ev.truth(elt)
+            vals.append(z3.And(cond, t) if kind == "any" else z3.Implies(cond, t))
+        return VBool((z3.Or if kind == "any" else z3.And)(vals + [z3.BoolVal(kind != "any")]))
     k = z3.Int(ev.st.run.fresh_name("qk"))
     cond, elt, side = elementwise(sub, gnode, k, lo, enum)
     # python evaluates lazily: element j is only evaluated if no earlier element decided the result; we
